@@ -203,6 +203,24 @@ def check_case(case):
     return out
 
 
+def large_case(n_values):
+    """one uncompressed subset with exactly n_values values: [001001] 102000 031002 001001 001002"""
+    from refbufr import frame
+    meta = frame.default_meta(4)
+    meta.update({'master_table_version': 33, 'n_subsets': 1, 'is_compressed': False})
+    lead = 1 - n_values % 2
+    n = (n_values - 1 - lead) // 2
+    case = gmsg.case_from_raws(meta, [1001] * lead + [102000, 31002, 1001, 1002], subsets=[[3] * lead + [n] + [1, 2] * n])
+    case.n_values = n_values
+    assert len(case.values()[0]) == n_values
+    return case
+
+
+def check_large(n_values):
+    case = large_case(n_values)
+    return case, check_case(case), None
+
+
 def check_corpus(item):
     f, j, b = item
     from checks.c01 import CorpusCase
@@ -298,10 +316,16 @@ def run(tier, seed):
     items = corpusio.messages(stride=stride, offset=seed)
     res = runner.run_enumerated(items, check_corpus, workers, chunk=2)
     std.add_results(rep, res, 'corpus')
+    # subsets with about 100 000 values: the flat text numbers its lines in a five-character column
+    res = runner.run_enumerated([100001] if tier == 'quick' else [99999, 100000, 100001, 100002, 131073], check_large, workers, chunk=1)
+    for case, out, excl in res:
+        rep.add_case(case.key(), True, ['subset_with_100000_values'], None)
+        for clause, detail in out.failures:
+            rep.add_failure('large subset: ' + clause, detail, {'n_values': case.n_values}, stage='large subsets')
     runner.run_generated(rep, gen(tier), check_cli, 24 if tier == 'quick' else 1200, 4 if tier == 'quick' else workers,
                          stage='command line')
     rep.required_classes = ['204', '221_skipped', 'zero_rep', 'bitmap', '222_qa', '224255', 'string_with_quote_or_backslash',
-                            'string_with_8bit', 'string_with_blanks', 'compressed', 'uncompressed', 'corpus', 'cli']
+                            'string_with_8bit', 'string_with_blanks', 'compressed', 'uncompressed', 'corpus', 'cli', 'subset_with_100000_values']
     fuzz.run_structured(rep, 'checks.c09', _fuzz_gen, tier)
     return rep.finish(SIGNATURES)
 
@@ -309,6 +333,12 @@ def run(tier, seed):
 def replay(path):
     with open(path) as f:
         d = json.load(f)
+    if 'n_values' in d['case']:
+        case, out, excl = check_large(d['case']['n_values'])
+        for clause, detail in out.failures:
+            print('VIOLATION property=%s replay=%s' % (PID, path))
+            print('  clause: %s detail: %s' % (clause, json.dumps(runner.jsonable(detail))[:600]))
+        return 1 if out.failures else 0
     if 'corpus_file' in d['case']:
         c = d['case']
         cc, out, excl = check_corpus((c['corpus_file'], c['message_index'], bytes.fromhex(c['bytes_hex'])))
